@@ -97,6 +97,10 @@ type Checker struct {
 	Gen       func(ctx *Ctx, i int) *Input
 	Exec      func(ctx *Ctx, in *Input) *Result
 	Shrink    func(ctx *Ctx, in *Input, v *Violation) []*Input // candidate simplifications, simplest first
+	// ProcessStateIsEvidence: a violation that shows in a worker (which has run other cases before) but not when the same
+	// case is replayed in a fresh process is itself what the property forbids (C14: "in the same or in different
+	// processes"): state carried from one generation to the next. It is then reported, flagged not exactly replayable.
+	ProcessStateIsEvidence bool
 	Probes    []string                                         // counters that must be non-zero (rare-condition probes); zero => warning
 	FaultKeys []string                                         // counters that are fault kinds
 }
